@@ -52,6 +52,7 @@ type crashCtl struct {
 	disabled  bool
 	jitter, inflight, passed atomic.Int64
 	holdFlush                atomic.Bool // burst steps: hold back background table creation
+	bgInFlight               atomic.Bool // the driver started a flush that has not returned yet
 	durN         int // C13: durable-only reads taken (rotates the way the iterator is obtained)
 	fmvlo, fmvhi int // C40: format major version bounds a recovered store must respect
 }
@@ -380,7 +381,8 @@ func (c *crashCtl) probeLocked(at, cls string, dur bool) {
 		// had already started may complete in between); at a quiescent point of a
 		// configuration without background work only the last one.
 		chainB := manifestVersions(c.mem.CrashCloneWith(func(string, bool, int) bool { return true }), c.r.Dir)
-		strict := cls == "return" && !c.r.Cfg.AutoCompact
+		// (not while the driver itself keeps a background flush in flight: CONC and burst steps)
+		strict := cls == "return" && !c.r.Cfg.AutoCompact && !c.bgInFlight.Load()
 		allowed := [][]int{}
 		for _, ch := range [][][]int{chainA, chainB} {
 			n := len(ch)
@@ -642,6 +644,7 @@ func runCrash(u Univ, cfg Config, cp crashProfile, seed uint64, steps int, path 
 					flush()
 				}
 				c.holdFlush.Store(true)
+				c.bgInFlight.Store(true)
 				for j := 0; j < 2+rng.IntN(2) && r.Fatal == nil; j++ {
 					tables, flat := g.ingestTables()
 					r.Exec(Ev{"op": "ingest", "tables": tables, "ops": flat})
@@ -649,9 +652,8 @@ func runCrash(u Univ, cfg Config, cp crashProfile, seed uint64, steps int, path 
 					winLen++
 				}
 				c.holdFlush.Store(false)
-				if winLen >= 9 {
-					flush()
-				}
+				flush() // waits for the queued flushables as well
+				c.bgInFlight.Store(false)
 			case x >= 100-cp.concPct:
 				// two jobs at once: a flush running in the background while the client ingests a table
 				// on other keys (both create objects and sync the directory)
@@ -665,7 +667,7 @@ func runCrash(u Univ, cfg Config, cp crashProfile, seed uint64, steps int, path 
 				}
 				var done <-chan struct{}
 				var ferr error
-				r.BeforeIngest = func() { done, ferr = r.DB.AsyncFlush() }
+				r.BeforeIngest = func() { c.bgInFlight.Store(true); done, ferr = r.DB.AsyncFlush() }
 				tables, flat := g.ingestTables()
 				r.Exec(Ev{"op": "ingest", "tables": tables, "ops": flat})
 				if r.Fatal != nil {
@@ -673,8 +675,12 @@ func runCrash(u Univ, cfg Config, cp crashProfile, seed uint64, steps int, path 
 				}
 				g.track(flat)
 				winLen++
+				if ferr != nil {
+					c.bgInFlight.Store(false)
+				}
 				if ferr == nil {
 					<-done
+					c.bgInFlight.Store(false)
 					t.Emit(Ev{"op": "maint", "kind": "flush"})
 					t.Emit(Ev{"op": "durable"})
 					unacked, winLen = 0, 0
